@@ -1,5 +1,5 @@
 \* one pass over a log without stopping: REJECT lines name every scenario whose latch was set (see PathSafeTrace)
-CONSTANTS TitleClean = "rooted" ExtractGuard = "reroot" LinkPolicy = "skip" DeleteValidates = TRUE MaxFull = 1 MaxCore = 1
+CONSTANTS TitleClean = "rooted" ExtractGuard = "reroot" Whiteout = "none" LinkPolicy = "skip" DeleteValidates = TRUE MaxFull = 1 MaxCore = 1
 SPECIFICATION TSpec
 CONSTRAINT HW
 POSTCONDITION Accepted
